@@ -246,7 +246,32 @@ fn split(rng: &mut StdRng, n: usize, maxb: usize) -> Vec<usize> {
 const SYM_FAMILIES: &[&str] = &["sym_dense", "sym_dense", "sym_repeated", "sym_diag", "sym_block", "sym_lowrank",
                                 "sym_hadamard", "sym_tridiag", "sym_zero"];
 const GEN_FAMILIES: &[&str] = &["gen_dense", "gen_dense", "gen_triangular", "gen_companion", "gen_rotation",
-                                "gen_balanced", "gen_normal", "gen_nilpotent", "gen_perm", "gen_block", "gen_symmetric"];
+                                "gen_balanced", "gen_normal", "gen_nilpotent", "gen_perm", "gen_block", "gen_symmetric",
+                                "gen_upper_gap", "gen_nil_gap", "gen_block_far", "gen_hess_gap", "gen_companion_top",
+                                "gen_upper_gap", "gen_nil_gap"];
+/// families used on the size ladder (orders 20, 33, 64)
+const LADDER_GEN: &[&str] = &["gen_dense", "gen_upper_gap", "gen_nil_gap", "gen_block_far", "gen_hess_gap",
+                              "gen_companion", "gen_triangular", "gen_rotation", "gen_perm", "gen_companion_top"];
+const LADDER_SYM: &[&str] = &["sym_dense", "sym_tridiag", "sym_block", "sym_hadamard", "sym_repeated"];
+
+/// entries clamped to [-c, c]: keeps the zero pattern, symmetry and the sign structure
+fn clamp(a: &IM, c: i64) -> IM {
+    a.iter().map(|r| r.iter().map(|&v| v.max(-c).min(c)).collect()).collect()
+}
+
+/// P A P^T for a random permutation (half of the time), or the transpose (a quarter)
+fn disguise(rng: &mut StdRng, a: IM) -> IM {
+    let n = a.len();
+    match rng.gen_range(0..4) {
+        0 | 1 => a,
+        2 => transpose(&a),
+        _ => {
+            let mut p: Vec<usize> = (0..n).collect();
+            p.shuffle(rng);
+            (0..n).map(|i| (0..n).map(|j| a[p[i]][p[j]]).collect()).collect()
+        }
+    }
+}
 
 fn gen_sym(rng: &mut StdRng, n: usize, fam: &str) -> IM {
     let c = cap(n);
@@ -441,6 +466,90 @@ fn gen_gen(rng: &mut StdRng, n: usize, fam: &str) -> IM {
             a
         }
         "gen_symmetric" => sym_random(rng, n, c),
+        "gen_upper_gap" => {
+            // diagonal + strictly upper part with an EMPTY first super-diagonal; the far entries are
+            // 2^k times the diagonal scale
+            let mut a = vec![vec![0i64; n]; n];
+            let zero_diag = rng.gen_bool(0.3);
+            for i in 0..n {
+                if !zero_diag {
+                    a[i][i] = rnd(rng, 2);
+                }
+                for j in i + 2..n {
+                    if rng.gen_bool(0.6) {
+                        a[i][j] = rnd(rng, 2) * (1i64 << rng.gen_range(0..=3));
+                    }
+                }
+            }
+            disguise(rng, a)
+        }
+        "gen_nil_gap" => {
+            // nilpotent: all entries at distance >= g >= 2 above the diagonal (squares / cubes of a shift
+            // matrix and their sparse perturbations); zero diagonal, sub- and super-diagonal
+            let mut a = vec![vec![0i64; n]; n];
+            let g = if n > 2 { rng.gen_range(2..=(n - 1).min(4)) } else { 2 };
+            let dense_far = rng.gen_bool(0.5);
+            for i in 0..n {
+                for j in i + g..n {
+                    if j == i + g || (dense_far && rng.gen_bool(0.4)) {
+                        a[i][j] = if rng.gen_bool(0.5) { 1 } else { rnd(rng, 5) };
+                    }
+                }
+            }
+            disguise(rng, a)
+        }
+        "gen_block_far" => {
+            // block upper triangular: small diagonal blocks, LARGE off-diagonal blocks (2^k times larger)
+            let sizes = split(rng, n, 3);
+            let blocks: Vec<IM> = sizes.iter().map(|&s| dense(rng, s, s, 1)).collect();
+            let mut a = block_diag(&blocks);
+            let mut start = Vec::new();
+            let mut o = 0;
+            for &sz in &sizes {
+                start.push((o, o + sz));
+                o += sz;
+            }
+            for (bi, &(r0, r1)) in start.iter().enumerate() {
+                for &(c0, c1) in start.iter().skip(bi + 1) {
+                    if rng.gen_bool(0.6) {
+                        let k = rng.gen_range(2..=4);
+                        for row in a.iter_mut().take(r1).skip(r0) {
+                            for v in row.iter_mut().take(c1).skip(c0) {
+                                *v = rnd(rng, 1) * (1i64 << k);
+                            }
+                        }
+                    }
+                }
+            }
+            disguise(rng, a)
+        }
+        "gen_hess_gap" => {
+            // already upper Hessenberg, zeros on the first super-diagonal, some sub-diagonal gaps
+            let mut a = vec![vec![0i64; n]; n];
+            for i in 0..n {
+                a[i][i] = rnd(rng, 2);
+                if i + 1 < n && rng.gen_bool(0.7) {
+                    a[i + 1][i] = if rng.gen_bool(0.5) { 1 } else { rnd(rng, 3) };
+                }
+                for j in i + 2..n {
+                    if rng.gen_bool(0.5) {
+                        a[i][j] = rnd(rng, 2) * (1i64 << rng.gen_range(0..=3));
+                    }
+                }
+            }
+            a
+        }
+        "gen_companion_top" => {
+            // coefficients in the first row, ones on the sub-diagonal (and its transpose / flipped form)
+            let mut a = vec![vec![0i64; n]; n];
+            for i in 1..n {
+                a[i][i - 1] = 1;
+            }
+            for j in 0..n {
+                a[0][j] = rnd(rng, 4);
+            }
+            disguise(rng, a)
+        }
         _ => unreachable!(),
     }
 }
@@ -453,8 +562,26 @@ fn pick_se(rng: &mut StdRng) -> i32 {
     }
 }
 
+/// orders 1..8 mostly, 9..12 for one input in seven (the ladder sizes 20, 33, 64 are generated
+/// separately, a handful each)
 fn pick_n(rng: &mut StdRng) -> usize {
-    1 + rng.gen_range(0..8usize).min(rng.gen_range(0..10usize).min(7))
+    if rng.gen_range(0..7) == 0 {
+        rng.gen_range(9..=12usize)
+    } else {
+        1 + rng.gen_range(0..8usize).min(rng.gen_range(0..10usize).min(7))
+    }
+}
+
+/// entry bound that keeps the specification's sums of products inside 32 bits at order n
+fn fit(a: IM) -> IM {
+    let n = a.len();
+    if n >= 13 {
+        clamp(&a, 2)
+    } else if n >= 9 {
+        clamp(&a, 4)
+    } else {
+        a
+    }
 }
 
 fn one(out: &mut Out, stats: &mut Stats, rng: &mut StdRng, run: i64, fam: &str, a: &IM, bal: &[i32], sym: bool,
@@ -479,14 +606,38 @@ fn gen_random(path: &str) {
     for i in 0..n_sym {
         let fam = SYM_FAMILIES[i % SYM_FAMILIES.len()];
         let n = pick_n(&mut rng);
-        let a = gen_sym(&mut rng, n, fam);
+        let a = fit(gen_sym(&mut rng, n, fam));
         run += 1;
         one(&mut out, &mut stats, &mut rng, run, fam, &a, &vec![0; n], true, None, None);
+    }
+    // size ladder: a handful of inputs at orders 20, 33 and 64
+    let reps = if big { 12 } else { 1 };
+    for rep in 0..reps {
+        for (si, &n) in [20usize, 33, 64].iter().enumerate() {
+            for (fi, fam) in LADDER_SYM.iter().enumerate() {
+                if !big && (fi + si) % 3 != 0 {
+                    continue;
+                }
+                let a = fit(gen_sym(&mut rng, n, fam));
+                run += 1;
+                let name = format!("{}@{}", fam, n);
+                one(&mut out, &mut stats, &mut rng, run, &name, &a, &vec![0; n], true, Some((rep + fi) % 2 == 1), Some(0));
+            }
+            for (fi, fam) in LADDER_GEN.iter().enumerate() {
+                if !big && (fi + si) % 2 != 0 && n == 64 {
+                    continue;
+                }
+                let a = fit(gen_gen(&mut rng, n, fam));
+                run += 1;
+                let name = format!("{}@{}", fam, n);
+                one(&mut out, &mut stats, &mut rng, run, &name, &a, &vec![0; n], false, Some((rep + fi) % 2 == 1), Some(0));
+            }
+        }
     }
     for i in 0..n_gen {
         let fam = GEN_FAMILIES[i % GEN_FAMILIES.len()];
         let n = pick_n(&mut rng);
-        let a = gen_gen(&mut rng, n, fam);
+        let a = fit(gen_gen(&mut rng, n, fam));
         // accuracy is promised relative to the norm of the matrix actually fed (D A D^-1), so the
         // specification can only judge moderate exponents: spread <= 10 in f64, <= 2 in f32
         let w32 = rng.gen_bool(0.4);
